@@ -155,9 +155,11 @@ class Exec(ExprMixin, AccessMixin, CallMixin, StmtMixin, SpecMixin, HeapMixin, O
             exc_name, when, ens = r
             exc = self.make_exception(s, exc_name)
             extra = {'exc': exc}
-            if when is not None:
+            if when is not None and not self.mentions_unset_ghost(s, when):
               s.assume(self.eval_spec_merged(s, when, extra))
             for ename, eexpr in ens:
+              if self.mentions_unset_ghost(s, eexpr):
+                continue
               s.assume(self.eval_spec_merged(s, eexpr, extra))
             hook = con.hooks.get('on_raise')
             if hook:
